@@ -137,13 +137,77 @@ def extract_slots(backend, filename, rendered, template_dir=None):
     if not m:
         raise FrontEndError(f"{filename}: rendered text is not static+slots of the template")
     slots = {}
+    spans = {}
     for gname, p in names:
         if p[0] == "loop":
             slots.setdefault(p[1], [])
             slots[p[1]] = slots[p[1]] + split_loop(m.group(gname), p[2], p[3])
+            spans.setdefault(p[1], (m.start(gname), m.end(gname)))
         else:
             slots[p[1]] = m.group(gname)
+    text = m.string
+    ctx = {}
+    for var in ("query_code", "book_code"):
+        if var in spans:
+            ctx[var] = enclosing_function_body(text, *spans[var])
+    slots["__context__"] = ctx
     return slots
+
+
+def _strip_comments(t):
+    t = re.sub(r"/\*.*?\*/", "", t, flags=re.S)
+    t = "\n".join(re.sub(r"//.*$", "", ln) for ln in t.split("\n"))
+    # conditional blocks on a macro that is defined nowhere in the file are not compiled (#ifdef EXAMPLE ... #endif)
+    defined = set(re.findall(r"^\s*#\s*define\s+(\w+)", t, flags=re.M))
+
+    def drop(m):
+        return "" if m.group(1) not in defined else m.group(0)
+    return re.sub(r"^[ \t]*#\s*ifdef\s+(\w+)[^\n]*\n.*?^[ \t]*#\s*endif[^\n]*$", drop, t, flags=re.S | re.M)
+
+
+def enclosing_function_body(text, start, end):
+    """(text between the opening brace of the FUNCTION that contains [start, end) and start, text between end and that
+    function's closing brace), comments removed; None if the braces cannot be matched.  Blocks that are not function bodies
+    (try, if, for, bare blocks) around the slot are part of the prefix / suffix."""
+    before = _strip_comments(text[:start])
+    after = _strip_comments(text[end:])
+    pos = len(before)
+    apos = 0
+    while True:
+        depth = 0
+        i = pos - 1
+        open_at = None
+        while i >= 0:
+            ch = before[i]
+            if ch == "}":
+                depth += 1
+            elif ch == "{":
+                if depth == 0:
+                    open_at = i
+                    break
+                depth -= 1
+            i -= 1
+        if open_at is None:
+            return None
+        depth = 0
+        close_at = None
+        for j in range(apos, len(after)):
+            ch = after[j]
+            if ch == "{":
+                depth += 1
+            elif ch == "}":
+                if depth == 0:
+                    close_at = j
+                    break
+                depth -= 1
+        if close_at is None:
+            return None
+        head = before[:open_at].rstrip().split("\n")[-1].strip() if before[:open_at].strip() else ""
+        is_function = bool(re.search(r"\)\s*(const)?\s*$", head)) and not re.match(r"^(if|for|while|switch|catch|else)\b", head)
+        if is_function or open_at == 0:
+            return {"prefix": before[open_at + 1:], "suffix": after[:close_at], "header": head}
+        pos = open_at
+        apos = close_at + 1
 
 
 def package_slots(pkg):
